@@ -2,6 +2,7 @@
 
 // The skeleton module's go.mod says go 1.22, which defaults the test binary to
 // asynctimerchan=1; synctest bubbles need the Go 1.23+ timer channels.
+//
 //go:debug asynctimerchan=0
 package processor
 
